@@ -1932,7 +1932,7 @@ func (c *Ctx) checkOwnedLifecycle(r *Report, ro *Roles) {
 						if recv == nil || (name != "Start" && name != "Stop") {
 							return
 						}
-						if elemOfFieldSlice(recv, f) {
+						if elemOfFieldSlice(recv, f) || aliasOfField(recv, f) {
 							loopCalls[name] = true
 						}
 					})
@@ -1972,7 +1972,7 @@ func (c *Ctx) checkOwnedLifecycle(r *Report, ro *Roles) {
 					}
 					if b, isB := ci.Common().Value.(*ssa.Builtin); isB && b.Name() == "len" && isSlice {
 						// entering the loop over the owned slice: all elements are visited (possibly none)
-						if isFieldLoad(ci.Common().Args[0], f) && loopCalls[m.name] && !strings.Contains(s.A, "CHILD;") {
+						if (isFieldLoad(ci.Common().Args[0], f) || storedToField(ci.Common().Args[0], f)) && loopCalls[m.name] && !strings.Contains(s.A, "CHILD;") {
 							return []string{s.A + "CHILD;"}
 						}
 					}
@@ -1981,7 +1981,7 @@ func (c *Ctx) checkOwnedLifecycle(r *Report, ro *Roles) {
 					}
 					p := c.accessPath(recv, s.Frame)
 					src := rangeSource(c, recv, s.Frame)
-					if strings.Contains(p, fieldTag) || strings.Contains(src, fieldTag) || c.loadedFromField(recv, f) {
+					if strings.Contains(p, fieldTag) || strings.Contains(src, fieldTag) || c.loadedFromField(recv, f) || aliasOfField(recv, f) {
 						if strings.Contains(s.A, "CHILD;") {
 							return nil
 						}
@@ -2066,6 +2066,64 @@ func elemOfFieldSlice(v ssa.Value, f *types.Var) bool {
 			v = x.X
 		case *ssa.IndexAddr:
 			return isFieldLoad(x.X, f)
+		default:
+			return false
+		}
+	}
+	return false
+}
+
+// storedToField: the SSA value v is itself stored into field f somewhere in its function (`refs := …; x.f = refs`):
+// v and the field then name the same children.
+func storedToField(v ssa.Value, f *types.Var) bool {
+	if v == nil {
+		return false
+	}
+	refs := v.Referrers()
+	if refs == nil {
+		return false
+	}
+	for _, u := range *refs {
+		if st, ok := u.(*ssa.Store); ok && st.Val == v {
+			if fa, ok := st.Addr.(*ssa.FieldAddr); ok {
+				if pt, ok := fa.X.Type().Underlying().(*types.Pointer); ok {
+					if stt, ok := pt.Elem().Underlying().(*types.Struct); ok && stt.Field(fa.Field) == f {
+						return true
+					}
+				}
+			}
+		}
+	}
+	return false
+}
+
+// aliasOfField: v is (an element of) a local value that is also stored into field f.
+func aliasOfField(v ssa.Value, f *types.Var) bool {
+	for i := 0; i < 8 && v != nil; i++ {
+		if storedToField(v, f) {
+			return true
+		}
+		switch x := v.(type) {
+		case *ssa.UnOp:
+			v = x.X
+		case *ssa.IndexAddr:
+			v = x.X
+		case *ssa.FieldAddr:
+			v = x.X
+		case *ssa.MakeInterface:
+			v = x.X
+		case *ssa.ChangeInterface:
+			v = x.X
+		case *ssa.Extract:
+			nx, ok := x.Tuple.(*ssa.Next)
+			if !ok {
+				return false
+			}
+			rg, ok := nx.Iter.(*ssa.Range)
+			if !ok {
+				return false
+			}
+			v = rg.X
 		default:
 			return false
 		}
